@@ -1,0 +1,492 @@
+//go:build verif
+
+package handler
+
+import (
+	"context"
+	"encoding/json"
+	"fmt"
+	"net/http"
+	"net/http/httptest"
+	"strconv"
+	"sync"
+	"testing"
+	"time"
+
+	"github.com/gotid/god/api/chain"
+	"github.com/gotid/god/internal/verifdrv"
+	"github.com/gotid/god/lib/logx"
+)
+
+// ---------------------------------------------------------------------------- case format
+
+type verifC02Action struct {
+	A string `json:"a"` // set | add | del | wh | w | panic
+	K int    `json:"k"`
+	V int    `json:"v"`
+	C int    `json:"c"`
+	B string `json:"b"`
+}
+
+type verifC02Fire struct {
+	Mode  string `json:"mode"`  // none | cut | both
+	K     int    `json:"k"`     // cut: deadline while the handler is parked in front of action k
+	Cause string `json:"cause"` // cancel (parent context cancelled) | deadline (parent reports DeadlineExceeded) | real (the handler's own timer)
+}
+
+type verifC02Hdr struct {
+	K int   `json:"k"`
+	V []int `json:"v"`
+}
+
+type verifC02Case struct {
+	Kind string `json:"kind"` // tw | conns
+	// tw
+	Recover  bool          `json:"recover"`
+	Bypass   string        `json:"bypass"` // none | upgrade | zero
+	MaxBytes int64         `json:"maxbytes"`
+	Clen     int64         `json:"clen"`
+	Rh0      []verifC02Hdr    `json:"rh0"`
+	Acts     []verifC02Action `json:"acts"`
+	Fire     verifC02Fire     `json:"fire"`
+	// conns
+	N     int       `json:"n"`
+	Reqs  int       `json:"reqs"`
+	Inner bool      `json:"inner"`
+	Ops   []verifC02Op `json:"ops"`
+}
+
+type verifC02Op struct {
+	Op    string `json:"op"` // enter | leave
+	I     int    `json:"i"`
+	Panic bool   `json:"panic"`
+}
+
+const verifC02Keys = 4
+
+func verifC02Key(k int) string { return "X-Verif-" + strconv.Itoa(k) }
+
+// header map restricted to the driver's key universe, sorted by key id
+func verifC02Snap(h http.Header) []verifC02Hdr {
+	out := []verifC02Hdr{}
+	for k := 0; k < verifC02Keys; k++ {
+		vv, ok := h[verifC02Key(k)]
+		if !ok {
+			continue
+		}
+		vals := make([]int, 0, len(vv))
+		for _, s := range vv {
+			n, err := strconv.Atoi(s)
+			if err != nil {
+				n = -1
+			}
+			vals = append(vals, n)
+		}
+		out = append(out, verifC02Hdr{K: k, V: vals})
+	}
+	return out
+}
+
+func verifC02Bytes(b []byte) []int {
+	out := make([]int, len(b))
+	for i, c := range b {
+		out[i] = int(c)
+	}
+	return out
+}
+
+// ---------------------------------------------------------------------------- the "real" writer
+
+type verifC02Event struct {
+	T string     `json:"t"` // wh | w
+	C int        `json:"c,omitempty"`
+	H []verifC02Hdr `json:"h,omitempty"`
+	B []int      `json:"b,omitempty"`
+}
+
+// verifC02Writer logs every call that reaches the underlying writer and forwards it to a ResponseRecorder
+// (whose Result() is what a client would see).
+type verifC02Writer struct {
+	rec    *httptest.ResponseRecorder
+	mu     sync.Mutex
+	events []verifC02Event
+}
+
+func (w *verifC02Writer) Header() http.Header { return w.rec.Header() }
+
+func (w *verifC02Writer) WriteHeader(code int) {
+	snap := verifC02Snap(w.rec.Header())
+	w.rec.WriteHeader(code) // panics on codes outside [100,599] like net/http does
+	w.mu.Lock()
+	w.events = append(w.events, verifC02Event{T: "wh", C: code, H: snap})
+	w.mu.Unlock()
+}
+
+func (w *verifC02Writer) Write(b []byte) (int, error) {
+	w.mu.Lock()
+	w.events = append(w.events, verifC02Event{T: "w", B: verifC02Bytes(b)})
+	w.mu.Unlock()
+	return w.rec.Write(b)
+}
+
+// ---------------------------------------------------------------------------- scripted deadline
+
+// verifC02DeadlineCtx is a parent context whose deadline "expires" when the driver says so:
+// Done() closes and Err() reports context.DeadlineExceeded, exactly what a timer-driven context shows.
+type verifC02DeadlineCtx struct {
+	context.Context
+	done chan struct{}
+	mu   sync.Mutex
+	err  error
+}
+
+func newVerifC02DeadlineCtx() *verifC02DeadlineCtx {
+	return &verifC02DeadlineCtx{Context: context.Background(), done: make(chan struct{})}
+}
+
+func (c *verifC02DeadlineCtx) Done() <-chan struct{} { return c.done }
+
+func (c *verifC02DeadlineCtx) Err() error {
+	c.mu.Lock()
+	defer c.mu.Unlock()
+	return c.err
+}
+
+func (c *verifC02DeadlineCtx) expire() {
+	c.mu.Lock()
+	c.err = context.DeadlineExceeded
+	c.mu.Unlock()
+	close(c.done)
+}
+
+// ---------------------------------------------------------------------------- kind "tw"
+
+const (
+	verifC02RealTimeout = 40 * time.Millisecond
+	verifC02HangLimit   = 3 * time.Second // nothing the code waits for is outstanding: far beyond any scheduling delay
+)
+
+type verifC02Script struct {
+	acts    []verifC02Action
+	ready   chan int      // handler -> driver: parked in front of action i (len(acts): in front of return)
+	release chan struct{} // driver -> handler: go on
+
+	mu      sync.Mutex
+	trace   []string
+	ctxLive []bool // request context still alive when the handler parked in front of action i
+}
+
+func (s *verifC02Script) serve(w http.ResponseWriter, r *http.Request) {
+	for i, a := range s.acts {
+		s.park(i, r)
+		s.mu.Lock()
+		s.trace = append(s.trace, "panic") // provisional: stays if the action panics
+		s.mu.Unlock()
+		out := verifC02Do(w, a)
+		s.mu.Lock()
+		s.trace[i] = out
+		s.mu.Unlock()
+	}
+	s.park(len(s.acts), r)
+}
+
+func (s *verifC02Script) park(i int, r *http.Request) {
+	s.mu.Lock()
+	s.ctxLive = append(s.ctxLive, r.Context().Err() == nil)
+	s.mu.Unlock()
+	s.ready <- i
+	<-s.release
+}
+
+func verifC02Do(w http.ResponseWriter, a verifC02Action) string {
+	switch a.A {
+	case "set":
+		w.Header().Set(verifC02Key(a.K), strconv.Itoa(a.V))
+		return "ok"
+	case "add":
+		w.Header().Add(verifC02Key(a.K), strconv.Itoa(a.V))
+		return "ok"
+	case "del":
+		w.Header().Del(verifC02Key(a.K))
+		return "ok"
+	case "wh":
+		w.WriteHeader(a.C)
+		return "ok"
+	case "w":
+		n, err := w.Write([]byte(a.B))
+		switch {
+		case err == nil:
+			return "w:" + strconv.Itoa(n)
+		case err == http.ErrHandlerTimeout:
+			return "timeout"
+		default:
+			return "err:" + err.Error()
+		}
+	case "panic":
+		panic("verif: scripted panic")
+	}
+	panic("verif: unknown action " + a.A)
+}
+
+// one attempt; ok=false means a real timer fired before the forced cut was reached (retry)
+func verifC02RunTw(c *verifC02Case) (obs map[string]any, ok bool) {
+	s := &verifC02Script{acts: c.Acts, ready: make(chan int), release: make(chan struct{})}
+	// idone closes when everything inside Recover (MaxBytes + scripted handler) has returned or panicked
+	idone := make(chan struct{})
+	probe := func(next http.Handler) http.Handler {
+		return http.HandlerFunc(func(w http.ResponseWriter, r *http.Request) {
+			defer close(idone)
+			next.ServeHTTP(w, r)
+		})
+	}
+
+	dt := time.Hour
+	if c.Fire.Cause == "real" {
+		dt = verifC02RealTimeout
+	}
+	if c.Bypass == "zero" {
+		dt = 0
+	}
+	mws := []chain.Middleware{TimeoutHandler(dt)}
+	if c.Recover {
+		mws = append(mws, RecoverHandler)
+	}
+	mws = append(mws, probe, MaxBytesHandler(c.MaxBytes))
+	h := chain.New(mws...).ThenFunc(s.serve)
+
+	var fire func()
+	parent := context.Background()
+	switch c.Fire.Cause {
+	case "cancel":
+		ctx, cancel := context.WithCancel(context.Background())
+		parent, fire = ctx, cancel
+	case "deadline":
+		dc := newVerifC02DeadlineCtx()
+		parent, fire = dc, dc.expire
+	default:
+		fire = func() {}
+	}
+	var once sync.Once
+	rawFire := fire
+	fire = func() { once.Do(rawFire) }
+	req := httptest.NewRequest(http.MethodPost, "http://localhost/verif", nil).WithContext(parent)
+	req.ContentLength = c.Clen
+	if c.Bypass == "upgrade" {
+		req.Header.Set(headerUpgrade, valueWebsocket)
+	}
+	w := &verifC02Writer{rec: httptest.NewRecorder()}
+	for _, kv := range c.Rh0 {
+		for _, v := range kv.V {
+			w.rec.Header().Add(verifC02Key(kv.K), strconv.Itoa(v))
+		}
+	}
+
+	gdone := make(chan struct{})
+	var panicked bool
+	var panicVal string
+	go func() {
+		defer close(gdone)
+		panicked, panicVal = verifdrv.Catch(func() { h.ServeHTTP(w, req) })
+	}()
+
+	// next waits until the handler parks again (true) or the inner chain is over (false)
+	next := func() (int, bool) {
+		select {
+		case i := <-s.ready:
+			return i, true
+		case <-idone:
+			return -1, false
+		case <-time.After(verifC02HangLimit):
+			panic("verif: hung: the handler goroutine neither parked nor finished")
+		}
+	}
+	waitG := func() {
+		select {
+		case <-gdone:
+		case <-time.After(verifC02HangLimit):
+			panic("verif: hung: ServeHTTP did not return")
+		}
+	}
+	n := len(c.Acts)
+	ok = true
+	switch c.Fire.Mode {
+	case "cut":
+		pos, alive := next()
+		for alive && pos < c.Fire.K {
+			s.release <- struct{}{}
+			pos, alive = next()
+		}
+		if alive {
+			// parked in front of action K
+			if c.Fire.Cause == "real" {
+				s.mu.Lock()
+				live := s.ctxLive[len(s.ctxLive)-1]
+				s.mu.Unlock()
+				if !live {
+					ok = false // the timer beat us to the cut: not the schedule that was asked for
+				}
+			}
+			fire()
+			waitG()
+			for alive {
+				s.release <- struct{}{}
+				_, alive = next()
+			}
+		}
+	case "both":
+		pos, alive := next()
+		for alive && pos < n {
+			s.release <- struct{}{}
+			pos, alive = next()
+		}
+		if alive {
+			go fire()
+			s.release <- struct{}{}
+			_, alive = next()
+		}
+	default:
+		_, alive := next()
+		for alive {
+			s.release <- struct{}{}
+			_, alive = next()
+		}
+	}
+	waitG()
+	select {
+	case <-idone:
+	case <-time.After(verifC02HangLimit):
+		panic("verif: hung: inner chain did not finish")
+	}
+	fire() // release context resources
+
+	res := w.rec.Result()
+	w.mu.Lock()
+	events := append([]verifC02Event{}, w.events...)
+	w.mu.Unlock()
+	s.mu.Lock()
+	trace := append([]string{}, s.trace...)
+	s.mu.Unlock()
+	_ = panicVal
+	return map[string]any{
+		"events":   events,
+		"resp":     map[string]any{"status": res.StatusCode, "h": verifC02Snap(res.Header), "body": verifC02Bytes(w.rec.Body.Bytes())},
+		"trace":    trace,
+		"panicked": panicked,
+	}, ok
+}
+
+// ---------------------------------------------------------------------------- kind "conns"
+
+func verifC02RunConns(c *verifC02Case) map[string]any {
+	type reqState struct {
+		rec        *httptest.ResponseRecorder
+		entered    chan struct{}
+		release    chan bool
+		returned   chan struct{}
+		propagated bool
+		ran        bool
+		state      string // out | in | rejected | left
+	}
+	reqs := make([]*reqState, c.Reqs)
+	for i := range reqs {
+		reqs[i] = &reqState{rec: httptest.NewRecorder(), entered: make(chan struct{}), release: make(chan bool),
+			returned: make(chan struct{}), state: "out"}
+	}
+	inner := http.HandlerFunc(func(w http.ResponseWriter, r *http.Request) {
+		i, _ := strconv.Atoi(r.Header.Get("X-Verif-Req"))
+		q := reqs[i]
+		q.ran = true
+		close(q.entered)
+		if <-q.release {
+			panic("verif: scripted panic")
+		}
+	})
+	mws := []chain.Middleware{MaxConns(c.N)}
+	if c.Inner {
+		mws = append(mws, TimeoutHandler(time.Hour), RecoverHandler)
+	}
+	h := chain.New(mws...).Then(inner)
+
+	obs := make([]map[string]any, 0, len(c.Ops))
+	for _, op := range c.Ops {
+		if op.I < 0 || op.I >= len(reqs) {
+			obs = append(obs, map[string]any{"o": "bad"})
+			continue
+		}
+		q := reqs[op.I]
+		switch op.Op {
+		case "enter":
+			if q.state != "out" {
+				obs = append(obs, map[string]any{"o": "bad"})
+				continue
+			}
+			req := httptest.NewRequest(http.MethodGet, "http://localhost/verif", nil)
+			req.Header.Set("X-Verif-Req", strconv.Itoa(op.I))
+			go func() {
+				defer close(q.returned)
+				q.propagated, _ = verifdrv.Catch(func() { h.ServeHTTP(q.rec, req) })
+			}()
+			select {
+			case <-q.entered:
+				q.state = "in"
+				obs = append(obs, map[string]any{"o": "in"})
+			case <-q.returned:
+				q.state = "rejected"
+				obs = append(obs, map[string]any{"o": "rejected", "status": q.rec.Code, "ran": q.ran})
+			case <-time.After(verifC02HangLimit):
+				panic("verif: hung: request neither entered the handler nor came back")
+			}
+		case "leave":
+			if q.state != "in" {
+				obs = append(obs, map[string]any{"o": "bad"})
+				continue
+			}
+			q.release <- op.Panic
+			select {
+			case <-q.returned:
+			case <-time.After(verifC02HangLimit):
+				panic("verif: hung: request did not come back after its handler returned")
+			}
+			q.state = "left"
+			obs = append(obs, map[string]any{"o": "left", "status": q.rec.Code, "propagated": q.propagated})
+		default:
+			obs = append(obs, map[string]any{"o": "bad"})
+		}
+	}
+	for _, q := range reqs {
+		if q.state == "in" {
+			q.release <- false
+			<-q.returned
+		}
+	}
+	return map[string]any{"ops": obs}
+}
+
+// TestVerifDriverC02 drives the REST guards (timeout, recover, max-bytes, max-conns) with scripted handlers
+// whose every action waits for the driver, so that each interleaving class with the deadline is forced.
+func TestVerifDriverC02(t *testing.T) {
+	logx.Disable()
+	verifdrv.Run(t, func(raw json.RawMessage) any {
+		var c verifC02Case
+		if err := json.Unmarshal(raw, &c); err != nil {
+			return map[string]any{"error": err.Error()}
+		}
+		switch c.Kind {
+		case "tw":
+			var obs map[string]any
+			for attempt := 0; attempt < 8; attempt++ {
+				var ok bool
+				obs, ok = verifC02RunTw(&c)
+				obs["retries"] = attempt
+				if ok {
+					return obs
+				}
+			}
+			obs["gave_up"] = true
+			return obs
+		case "conns":
+			return verifC02RunConns(&c)
+		}
+		return map[string]any{"error": fmt.Sprintf("unknown kind %q", c.Kind)}
+	})
+}
